@@ -506,6 +506,7 @@ def run(ctx):
                         detail={"method": nm})
 
     representation_limits(ctx)
+    child_list_ownership(ctx)
 
 
 def _stdlib_source(dotted):
@@ -590,6 +591,55 @@ def representation_limits(ctx, rid_doctype="C04.14", rid_clark="C04.15"):
                 detail={"walker_splits_attribute_keys": reads_clark})
 
 
+LIST_MUT = ("append", "insert", "extend", "remove", "pop", "clear", "sort", "reverse", "__setitem__", "__delitem__", "__iadd__")
+CHILD_LIST_OWNERS = ("appendChild", "insertBefore", "removeChild", "_setChildNodes", "__init__")
+
+
+def child_list_ownership(ctx, rid="C04.16"):
+    """C04.16: in the ElementTree back-end a node's children live in two lists (the ElementTree children and the shadow list of
+    wrappers) and each wrapper carries `.parent`.  The three are kept in step by the attach / detach primitives only (C04.2 and
+    C04.3 check those); so the lists are written *only* through `self.` inside the primitives and the childNodes setter.  Any
+    other write -- another node's lists, a bulk extend in a helper -- moves nodes without their `.parent`, which foster parenting
+    and the adoption agency consult (`lastNode.parent.removeChild(lastNode)`)."""
+    r = ctx.r
+    r.rule(rid, "etree: the child lists of a wrapper are written only by that wrapper's own attach / detach primitives", floor=8)
+    mod = ctx.repo.module("treebuilders/etree.py")
+    n = 0
+    for f in mod.all_functions:
+        for st in walk_no_nested(f.node):
+            recv = kind = None
+            if isinstance(st, ast.Call) and isinstance(st.func, ast.Attribute) and st.func.attr in LIST_MUT:
+                recv, kind = st.func.value, st.func.attr
+            elif isinstance(st, ast.Delete):
+                for t in st.targets:
+                    if isinstance(t, ast.Subscript):
+                        recv, kind = t.value, "del"
+            elif isinstance(st, ast.Assign) and any(isinstance(t, ast.Subscript) for t in st.targets):
+                recv, kind = next(t for t in st.targets if isinstance(t, ast.Subscript)).value, "store"
+            elif isinstance(st, ast.AugAssign):
+                recv, kind = st.target, "augmented"
+            elif isinstance(st, ast.Assign) and any(isinstance(t, ast.Attribute) and t.attr == "_childNodes" for t in st.targets):
+                recv, kind = next(t for t in st.targets if isinstance(t, ast.Attribute) and t.attr == "_childNodes"), "rebind"
+            ch = attr_chain(recv) if recv is not None else None
+            if not ch or ch[-1] not in ("_childNodes", "_element") or len(ch) < 2:
+                continue
+            n += 1
+            owner = ch[:-1]
+            key = "child-list-write::%s::%s::%s" % (f.qual, ".".join(ch), kind)
+            where = "treebuilders/etree.py:%d" % st.lineno
+            ok = owner == ["self"] and f.name in CHILD_LIST_OWNERS
+            sets_parent = any(isinstance(a, ast.Assign) and any(isinstance(t, ast.Attribute) and t.attr == "parent" for t in a.targets)
+                              for a in walk_no_nested(f.node))
+            r.idiom(rid, ok, key, where,
+                    "%s writes the child list %s outside the attach / detach primitives" % (f.qual, ".".join(ch)),
+                    wrong=[(not sets_parent,
+                            "%s writes the child list `%s` (%s) and stores no `.parent`: the nodes it moves keep their old parent, so a "
+                            "later `node.parent.removeChild(node)` (adoption agency, foster parenting) addresses the wrong element "
+                            "(ValueError, or the node appears twice)" % (f.qual, ".".join(ch), kind))],
+                    data={"function": f.qual, "list": ".".join(ch), "kind": kind}, detail={"function": f.qual, "list": ".".join(ch), "kind": kind})
+    r.idiom(rid, n >= 8, "child-list-writes-found", "treebuilders/etree.py", "only %d writes of the child lists were recognised" % n)
+
+
 def thorough(ctx):
     from .. import selftest
     selftest.run(ctx, sys.modules[__name__])
@@ -622,6 +672,8 @@ def mutants():
           "        def insertText(self, data, before):\n            insertBefore = before\n            text = self.element.ownerDocument", "C04.5"),
         T("inserttext-overwrite", "treebuilders/etree.py", "                    if not self._element.text:\n                        self._element.text = \"\"\n                    self._element.text += data\n\n        def cloneNode",
           "                    self._element.text = data\n\n        def cloneNode", "C04.6"),
+        T("reparent-bulk-extend", "treebuilders/etree.py", "            base.Node.reparentChildren(self, newParent)",
+          "            newParent._element.extend(self._element)\n            newParent._childNodes.extend(self._childNodes)\n            del self._element[:]\n            self._childNodes = []", "C04.16"),
         T("reparent-del-slice", "treebuilders/base.py", "            newParent.appendChild(child)\n        self.childNodes = []", "            newParent.appendChild(child)\n        del self.childNodes[:]", "C04.3"),
         T("dom-ns-dropped", "treebuilders/dom.py", "                        else:\n                            qualifiedName = name[1]\n                        self.element.setAttributeNS(name[2], qualifiedName,\n                                                    value)",
           "                            self.element.setAttributeNS(name[2], qualifiedName,\n                                                        value)\n                        else:\n                            self.element.setAttribute(name[1], value)", "C04.7"),
